@@ -1,3 +1,4 @@
+pub mod c02;
 pub mod c03;
 pub mod c04;
 pub mod c05;
@@ -32,6 +33,7 @@ pub fn std_assumptions() -> Vec<String> {
 
 pub fn get(id: &str) -> Option<Box<dyn Check>> {
     match id {
+        "C02" => Some(Box::new(c02::C02)),
         "C03" => Some(Box::new(c03::C03)),
         "C04" => Some(Box::new(c04::C04)),
         "C05" => Some(Box::new(c05::C05)),
